@@ -14,9 +14,10 @@ import (
 // SVal is the value of a specification expression: a symbolic value with its Go type, or an
 // untyped constant (T == nil).
 type SVal struct {
-	V Value
-	T types.Type
-	K constant.Value
+	V    Value
+	T    types.Type
+	K    constant.Value
+	Addr bool // V is the address of an address-taken local variable of the name (loop clauses)
 }
 
 type specEnv struct {
